@@ -231,16 +231,115 @@ theorem rootList_read (attrs : List (Str × Str)) (id : Str) (x : Option Str) (v
       and_true]
     cases agetLast k attrs <;> rfl
 
-/-- **Root attributes (partial)**: proved for a plain ordered dict as attribute store
+/-! ### minidom's `setAttribute` is a dict assignment when local names are pairwise distinct -/
+
+/-- no two names of the list differ only by a prefix -/
+def LocalsDistinct (ks : List Str) : Prop := ∀ x ∈ ks, ∀ y ∈ ks, localName x = localName y → x = y
+
+theorem domSet_eq_aset {k v : Str} {l : List (Str × Str)}
+    (h : ∀ p ∈ l, localName p.1 = localName k → p.1 = k) : domSet k v l = aset k v l := by
+  unfold domSet
+  by_cases hs : (aget k l).isSome = true
+  · simp [hs]
+  · have hnone : aget k l = none := by
+      cases hk : aget k l with
+      | none => rfl
+      | some x => simp [hk] at hs
+    have hf : l.filter (fun p => localName p.1 != localName k) = l := by
+      apply List.filter_eq_self.mpr
+      intro p hp
+      by_cases hl : localName p.1 = localName k
+      · have hpk : p.1 = k := h p hp hl
+        have : k ∈ keys l := by
+          rw [← hpk]; exact List.mem_map.mpr ⟨p, hp, rfl⟩
+        have := aget_isSome_of_mem this
+        simp [hnone] at this
+      · simpa using hl
+    simp only [hs, Bool.false_eq_true, if_false, hf]
+    exact (aset_of_aget_none hnone).symm
+
+/-- the two stores hold the same list, all of whose names belong to `K` -/
+structure Agree (K : List Str) (a b : List (Str × Str)) : Prop where
+  eq : a = b
+  inv : ∀ p ∈ b, p.1 ∈ K
+
+theorem Agree.nil (K : List Str) : Agree K [] [] := ⟨rfl, by simp⟩
+
+theorem mem_keys_aset {k : Str} {v : Str} {l : List (Str × Str)} {p : Str × Str}
+    (hp : p ∈ aset k v l) : p.1 = k ∨ p.1 ∈ keys l := by
+  have : p.1 ∈ keys (aset k v l) := List.mem_map.mpr ⟨p, hp, rfl⟩
+  rw [keys_aset] at this
+  split at this
+  · exact Or.inr this
+  · rcases List.mem_append.mp this with h | h
+    · exact Or.inr h
+    · simp at h; exact Or.inl h
+
+theorem Agree.set {K : List Str} (hK : LocalsDistinct K) {a b : List (Str × Str)} (h : Agree K a b)
+    {k : Str} (v : Str) (hk : k ∈ K) : Agree K (domSet k v a) (aset k v b) := by
+  refine ⟨?_, ?_⟩
+  · rw [h.eq]
+    exact domSet_eq_aset fun p hp hl => hK _ (h.inv p hp) _ hk hl
+  · intro p hp
+    rcases mem_keys_aset hp with h1 | h1
+    · rw [h1]; exact hk
+    · obtain ⟨q, hq, hqe⟩ := List.mem_map.mp h1
+      rw [← hqe]; exact h.inv q hq
+
+theorem Agree.setOpt {K : List Str} (hK : LocalsDistinct K) {a b : List (Str × Str)} (h : Agree K a b)
+    (k : String) (v : Option Str) (hk : k.toList ∈ K) :
+    Agree K (Settings.setOpt domSet k v a) (Settings.setOpt aset k v b) := by
+  cases v with
+  | none => exact h
+  | some x => exact h.set hK x hk
+
+theorem Agree.fold {K : List Str} (hK : LocalsDistinct K) (ops : List (Str × Str))
+    {a b : List (Str × Str)} (h : Agree K a b) (hops : ∀ p ∈ ops, p.1 ∈ K) :
+    Agree K (ops.foldl (fun acc kv => domSet kv.1 kv.2 acc) a) (ops.foldl (fun acc kv => aset kv.1 kv.2 acc) b) := by
+  induction ops generalizing a b with
+  | nil => exact h
+  | cons p r ih =>
+    exact ih (h.set hK p.2 (hops p (by simp))) (fun q hq => hops q (by simp [hq]))
+
+/-- the names the primary instance root can carry -/
+def rootNames (attrs : List (Str × Str)) : List Str :=
+  [S "id", S "xmlns", S "version", S "odk:prefix", S "odk:delimiter"] ++ attrs.map (·.1)
+
+/-- **Bridging theorem**: when no two of the root's attribute names differ only by a prefix, what
+    minidom's `setAttribute` builds is exactly what a plain ordered dict would hold. -/
+theorem rootList_domSet_eq_aset (attrs : List (Str × Str)) (id : Str) (x : Option Str) (ver : Str)
+    (p d : Option Str) (hK : LocalsDistinct (rootNames attrs)) :
+    rootList domSet attrs id x ver p d = rootList aset attrs id x ver p d := by
+  have h1 := Agree.fold hK attrs (Agree.nil (rootNames attrs))
+    (fun q hq => by simp only [rootNames]; exact List.mem_append_right _ (List.mem_map.mpr ⟨q, hq, rfl⟩))
+  have h2 := h1.set hK id (k := S "id") (List.mem_append_left _ (by decide))
+  have h3 := h2.setOpt hK "xmlns" x (List.mem_append_left _ (by decide))
+  have h4 : Agree (rootNames attrs)
+      (if ver.isEmpty then Settings.setOpt domSet "xmlns" x
+          (domSet (S "id") id (attrs.foldl (fun acc kv => domSet kv.1 kv.2 acc) []))
+        else domSet (S "version") ver (Settings.setOpt domSet "xmlns" x
+          (domSet (S "id") id (attrs.foldl (fun acc kv => domSet kv.1 kv.2 acc) []))))
+      (if ver.isEmpty then Settings.setOpt aset "xmlns" x
+          (aset (S "id") id (attrs.foldl (fun acc kv => aset kv.1 kv.2 acc) []))
+        else aset (S "version") ver (Settings.setOpt aset "xmlns" x
+          (aset (S "id") id (attrs.foldl (fun acc kv => aset kv.1 kv.2 acc) [])))) := by
+    split
+    · exact h3
+    · exact h3.set hK ver (k := S "version") (List.mem_append_left _ (by decide))
+  have h5 := h4.setOpt hK "odk:prefix" p (List.mem_append_left _ (by decide))
+  have h6 := h5.setOpt hK "odk:delimiter" d (List.mem_append_left _ (by decide))
+  exact h6.eq
+
+/-- **Root attributes, dict level**: proved for a plain ordered dict as attribute store
     (`rootAttrsWith aset`): every attribute name of the primary instance root then carries exactly
     the value the table prescribes (`id`/`xmlns`/`version`/`odk:prefix`/`odk:delimiter` from their own
     settings, winning over an `attribute::` column of the same name; anything else from
     `attribute::k`).
-    Full statement (NOT provable, the code violates it): the same for `rootAttrsOf = rootAttrsWith domSet`,
-    i.e. for minidom's `setAttribute`, which additionally evicts every attribute with the same *local*
-    name (`jr:x` vs `x`) — see `root_attrs_gap` for the counterexample on the model and known finding
-    `C11-attribute-same-local-name-evicted` for the same input on the implementation. -/
-theorem root_attrs_partial {st : Dict} (hn : (keys st).Nodup) (a : Args) (k : Str) :
+    The real store is minidom's `setAttribute` (`rootAttrsOf = rootAttrsWith domSet`), which additionally
+    evicts every attribute with the same *local* name (`jr:x` vs `x`): `root_attrs` is the statement for
+    it under the guard that excludes exactly this, `root_attrs_gap` the counterexample without the guard
+    (known finding `C11-attribute-same-local-name-evicted` on the implementation). -/
+theorem root_attrs_dict {st : Dict} (hn : (keys st).Nodup) (a : Args) (k : Str) :
     aget k (rootAttrsWith aset (surveyOf (jsonRoot st a))) = Spec.rootAttr (sig st) a k := by
   have hpfx : (surveyOf (jsonRoot st a)).pfx = Spec.opt (aget (S "prefix") st) := sv_opt hn a "prefix" dn
   have hdel : (surveyOf (jsonRoot st a)).delimiter = Spec.opt (aget (S "delimiter") st) :=
@@ -251,12 +350,26 @@ theorem root_attrs_partial {st : Dict} (hn : (keys st).Nodup) (a : Args) (k : St
   rw [rootList_read, sv_attrib hn a, sv_idString hn a, sv_version hn a, hpfx, hdel, hx]
   rfl
 
-/-- the gap of `root_attrs_partial`, exhibited on the model: `attribute::jr:x` and `attribute::x`
+/-- the gap of `root_attrs_dict`, exhibited on the model: `attribute::jr:x` and `attribute::x`
     → the header has lost `jr:x`, although the table prescribes it -/
 theorem root_attrs_gap :
     let st : Dict := [(S "attribute", .d [(S "jr:x", S "1"), (S "x", S "2")])]
     aget (S "jr:x") (headerOf st {}).rootAttrs = none ∧ Spec.rootAttr (sig st) {} (S "jr:x") = some (S "1") := by
   decide +kernel
+
+/-- **root_attrs** (guarded full statement for the real attribute store): when no two attribute
+    names the settings prescribe for the primary instance root differ only by a prefix, every
+    attribute name of the root that minidom ends up with carries exactly the value the table
+    prescribes.  The guard is the complement of the open finding's input shape. -/
+theorem root_attrs {st : Dict} (hn : (keys st).Nodup) (a : Args) (k : Str)
+    (hK : LocalsDistinct (Spec.rootAttrKeys (sig st))) :
+    aget k (rootAttrsOf (surveyOf (jsonRoot st a))) = Spec.rootAttr (sig st) a k := by
+  have hb : rootAttrsOf (surveyOf (jsonRoot st a)) = rootAttrsWith aset (surveyOf (jsonRoot st a)) := by
+    unfold rootAttrsOf rootAttrsWith
+    apply rootList_domSet_eq_aset
+    rw [sv_attrib hn a]
+    exact hK
+  rw [hb, root_attrs_dict hn]
 
 /-! ## the property theorems -/
 
@@ -333,12 +446,33 @@ theorem no_leak {st st' : Dict} {a : Args} {h h' : Header} (hn : (keys st).Nodup
   rw [settings_header hn hh L hL, settings_header hn' hh' L hL]
   exact want_congr a L hd
 
-/-- noninterference for the root attributes, dict level (see `root_attrs_partial` for the gap) -/
-theorem no_leak_root_attrs_partial {st st' : Dict} (a : Args) (hn : (keys st).Nodup) (hn' : (keys st').Nodup)
+/-- noninterference for the root attributes, dict level (see `root_attrs_dict` for the gap) -/
+theorem no_leak_root_attrs_dict {st st' : Dict} (a : Args) (hn : (keys st).Nodup) (hn' : (keys st').Nodup)
     (k : Str) (hd : ∀ s ∈ Spec.deps (.rootAttr k), aget s.toList st = aget s.toList st') :
     aget k (rootAttrsWith aset (surveyOf (jsonRoot st a))) = aget k (rootAttrsWith aset (surveyOf (jsonRoot st' a))) := by
-  rw [root_attrs_partial hn, root_attrs_partial hn']
+  rw [root_attrs_dict hn, root_attrs_dict hn']
   exact want_congr a (.rootAttr k) hd
+
+/-- **settings_header_all**: under the local-name guard the statement of `settings_header` holds at
+    *every* header location, root attributes included. -/
+theorem settings_header_all {st : Dict} {a : Args} {h : Header} (hn : (keys st).Nodup)
+    (hh : header st a = .ok h) (hK : LocalsDistinct (Spec.rootAttrKeys (sig st))) (L : Loc) :
+    h.read L = Spec.want (sig st) a L := by
+  cases L with
+  | rootAttr k =>
+    have := header_ok hh
+    subst this
+    exact root_attrs hn a k hK
+  | _ => exact settings_header hn hh _ (by intro k hk; cases hk)
+
+/-- **no_leak_all**: noninterference at every location, root attributes included, for settings whose
+    root attribute names are free of local-name collisions. -/
+theorem no_leak_all {st st' : Dict} {a : Args} {h h' : Header} (hn : (keys st).Nodup) (hn' : (keys st').Nodup)
+    (hh : header st a = .ok h) (hh' : header st' a = .ok h')
+    (hK : LocalsDistinct (Spec.rootAttrKeys (sig st))) (hK' : LocalsDistinct (Spec.rootAttrKeys (sig st')))
+    (L : Loc) (hd : ∀ k ∈ Spec.deps L, aget k.toList st = aget k.toList st') : h.read L = h'.read L := by
+  rw [settings_header_all hn hh hK L, settings_header_all hn' hh' hK' L]
+  exact want_congr a L hd
 
 /-- the `form_name` argument reaches the root element name and nothing else -/
 theorem form_name_only_root_name (σ : Spec.Sigma) (a : Args) (x : Option Str) (L : Loc) (hL : L ≠ .rootName) :
@@ -531,6 +665,17 @@ example :
 example : header [(S "omit_instanceID", .s (S "yes")), (S "public_key", .s (S "k"))] {} = .error (.err .omitWithKey) ∧
     header [(S "id_string", .s (S "None"))] {} = .error (.err .emptyId) ∧
     header [(S "name", .s (S "1a"))] {} = .error (.err (.badName (S "1a"))) := by
+  decide +kernel
+
+/-- the guard of `root_attrs` / `settings_header_all` holds for a sheet with prefixed and plain custom
+    attributes next to all five own attributes, and the header is accepted -/
+example :
+    let st : Dict := [(S "attribute", .d [(S "jr:x", S "1"), (S "y", S "2"), (S "odk:z", S "3")]),
+      (S "id_string", .s (S "f")), (S "version", .s (S "1")), (S "prefix", .s (S "p")),
+      (S "delimiter", .s (S "d")), (S "instance_xmlns", .s (S "urn:x"))]
+    (keys st).Nodup ∧ LocalsDistinct (Spec.rootAttrKeys (sig st)) ∧ (∃ h, header st {} = .ok h) := by
+  refine ⟨by decide +kernel, ?_, _, rfl⟩
+  unfold LocalsDistinct
   decide +kernel
 
 /-- the XML validation pass rejects, and a `${ref}` in an `attribute::` value is header text like any
